@@ -399,6 +399,23 @@ run_case(Ctx& ctx)
       throw vf::Skip(std::string("pdi rejected: ") + e.what());
     }
   ctx.desc.add("pdi", ps.desc());
+  // asymmetric segment ranges (e.g. -2..1, 0..2, -3..0): legal for reduce_segment_range, and the ring-difference look-ups must
+  // not assume that the stored ring differences are symmetric around 0.  Drawn from a PRNG of its own so that the rest of the
+  // case is what it was before this was added.
+  {
+    vf::Rng r2(vf::mix3(ctx.seed, static_cast<uint64_t>(ctx.idx), 0xA5E6));
+    if (r2.coin(0.4) && pdi->get_max_segment_num() >= 1)
+      {
+        const int lo = static_cast<int>(r2.range(pdi->get_min_segment_num(), 0));
+        const int hi = static_cast<int>(r2.range(0, pdi->get_max_segment_num()));
+        if (lo != -hi)
+          {
+            pdi->reduce_segment_range(lo, hi);
+            ctx.desc.add("asymmetric_segment_range_min", lo).add("asymmetric_segment_range_max", hi);
+            ctx.count(-lo > hi ? "cfg_more_negative_segments" : "cfg_more_positive_segments");
+          }
+      }
+  }
   const long work = static_cast<long>(ss.ndet) * ss.ndet * ss.nrings * ss.nrings * std::max(1, ss.tof_bins);
   const int mode = work > 6000000L ? 1 : 0;
   ctx.desc.add("factorised", mode);
